@@ -234,6 +234,13 @@ func (s *Sched) AnyLockHook(l any, write bool, site int) {
 	case **sync.RWMutex:
 		rw = *x
 	}
+	if l == nil {
+		// a lock has just been released: plain scheduling point
+		if w := s.cur; w != nil {
+			w.Yield(site)
+		}
+		return
+	}
 	if m == nil && rw == nil {
 		return
 	}
